@@ -194,7 +194,19 @@ def granular_leg(ck, rnd, tier):
                                                                     'mac': ['hmac-sha2-256'], 'comp': ['none']},
                               hostkeys={'ssh-ed25519': peers.ed25519_blob()}, gex={'style': c['style'], 'moduli': c['moduli']})
         scs.append({'argv': ['-j', '-g', arg, audit.HOST], 'servers': {(audit.HOST, 22): cfg}})
-    for c, arg, e, r in zip(cases, argvs, exp, runner.run_many(scs)):
+    gruns = runner.run_many(scs)
+    # the connection pattern of every -g run against TraceAudit (one probe per request and algorithm, nothing else after the host-key probes)
+    dh = rating.tables()['dheat']
+    items = [(audit.srv_of(sc['servers'][(audit.HOST, 22)], True, dh, argv=sc['argv'], granular=c['reqs']), r) for c, sc, r in zip(cases, scs, gruns)
+             if not (r.get('harness_error') or r.get('hang'))]
+    for (srv, r), (ok, info) in zip(items, audit.validate(ck, items)):
+        if ok:
+            ck.cov['traces_validated_against_impl'] += 1
+        else:
+            ck.violation('granular-trace-rejected model_pc=%s' % (info or {}).get('model_pc'),
+                         'TraceAudit rejects a -g run (requests %r): %s' % (srv['granular'], {k: v for k, v in (info or {}).items() if k != 'events'}),
+                         {'srv': srv, 'info': info})
+    for c, arg, e, r in zip(cases, argvs, exp, gruns):
         ck.evaluated()
         if r.get('harness_error') or r.get('hang'):
             raise common.Machinery('granular run failed: %r' % (r.get('harness_error') or 'hang'))
